@@ -1407,10 +1407,18 @@ static EntryTableDArray bufr_tabled_read (EntryTableDArray addr_tabled, const ch
 
       if ( tok[0] != '3') continue;
       count = 0;
-      while ( tok )
+      while ( tok && (count < (int)(sizeof(descriptors)/sizeof(descriptors[0]))) )
          {
          descriptors[count++] = atoi(tok);
          tok = strtok( NULL, " \t\n" );
+         }
+      if (tok)
+         {
+         char errmsg[256];
+
+         sprintf( errmsg, _("Warning: Table D sequence %d has too many descriptors, truncated to %d\n"),
+                  descriptors[0], count-1 );
+         bufr_print_debug( errmsg );
          }
       if (count > 1)
          {
